@@ -92,7 +92,112 @@ pub fn cases(tier: &str) -> Vec<Value> {
             }
         }
     }
+    // octet folding: "ASCII case-insensitive" folds the 26 letters and nothing else.  For every
+    // printable octet c a table {forward: 'x<c>y.fold', forge-nxdomain: 'fold'} is asked for
+    // x<d>y.fold with every octet d (quick: c, c^0x20, c+-1, upper/lower); it must be forwarded iff
+    // d equals c up to the case of an ASCII letter.
+    let printable: Vec<u8> = (0x21u8..0x7f).filter(|c| !matches!(*c, b'.' | b'\'' | b'"' | b'\\')).collect();
+    for chunk in printable.chunks(6) {
+        out.push(json!({"engine":"enet","check":"c15","kind":"octets","chars":chunk,"all":thorough}));
+    }
     out
+}
+
+fn run_octets(case: &Value) -> CaseResult {
+    let chars: Vec<u8> = case["chars"].as_array().map(|a| a.iter().filter_map(|x| x.as_u64()).map(|x| x as u8).collect()).unwrap_or_default();
+    let all = case["all"].as_bool().unwrap_or(false);
+    let mut res = CaseResult::ok("octets");
+    let mut n = 0u64;
+    let mut rejected = 0u64;
+    for c in chars {
+        let yaml = format!("---\ndns-listeners: {{LISTENERS}}\ndns-routes:\n  - domain-suffixes: ['x{}y.fold']\n    type: forward\n    dns-servers: ['{{UP0}}']\n  - domain-suffixes: ['fold']\n    type: forge-nxdomain\n", c as char);
+        let spec = RigSpec { listeners: vec!["::1".into()], n_upstreams: 1, yaml };
+        let mut rig = match Rig::start(&spec) {
+            Ok(r) => r,
+            Err(_) => {
+                // the loader does not take this octet in a suffix: nothing to route
+                rejected += 1;
+                continue;
+            }
+        };
+        let ds: Vec<u8> = if all {
+            (0..=255u8).collect()
+        } else {
+            let mut v = vec![c, c ^ 0x20, c.wrapping_add(1), c.wrapping_sub(1), c.to_ascii_uppercase(), c.to_ascii_lowercase(), c | 0x80];
+            v.sort();
+            v.dedup();
+            v
+        };
+        let mut qn = 0u16;
+        for d in ds {
+            qn += 1;
+            n += 1;
+            let want_fwd = d.eq_ignore_ascii_case(&c);
+            let name: rd::Name = vec![vec![b'x', d, b'y'], b"fold".to_vec()];
+            let q = rd::query(0x6800 + qn, &name, rd::T_A, 1, true, None);
+            let before = rig.upstreams[0].tcp_frames_total() + rig.upstreams[0].udp_rx.len();
+            let mut cl = match TcpClient::connect(Some("::1".parse().unwrap()), rig.listen_addr(0)) {
+                Ok(c) => c,
+                Err(e) => return CaseResult::machinery(e),
+            };
+            if let Err(e) = cl.conn.send_frame(&rd::encode(&q, false)) {
+                return CaseResult::machinery(e);
+            }
+            let mut reply: Option<Vec<u8>> = None;
+            let mut answered = 0usize;
+            for _ in 0..300 {
+                rig.pump(4);
+                rig.poll_upstreams();
+                let u = &mut rig.upstreams[0];
+                for ci in 0..u.conns.len() {
+                    while !u.conns[ci].frames_in.is_empty() && answered < u.tcp_frames_total() - before.min(u.tcp_frames_total()) {
+                        let f = u.conns[ci].frames_in.last().unwrap().clone();
+                        answered += 1;
+                        if let Ok((oq, _)) = rd::decode(&f) {
+                            let rep = rd::Msg { id: oq.id, flags: 0x8180, question: oq.question.clone(), answer: vec![rd::Rr { name: oq.question[0].0.clone(), rtype: rd::T_A, class: 1, ttl: 60, rdata: rd::Rdata::Raw(vec![10, 0, 0, 1]) }], authority: vec![], additional: vec![] };
+                            let _ = u.conns[ci].send_frame(&rd::encode(&rep, true));
+                        }
+                    }
+                }
+                cl.poll();
+                if let Some(b) = cl.conn.frames_in.first() {
+                    reply = Some(b.clone());
+                    break;
+                }
+                if cl.conn.eof {
+                    break;
+                }
+            }
+            let got_up = rig.upstreams[0].tcp_frames_total() + rig.upstreams[0].udp_rx.len() - before;
+            let sub = json!({"engine":"enet","check":"c15","kind":"octets","chars":[c],"all":true});
+            let mk = |oracle: &str, what: String| Violation::new(oracle, format!("table [fwd 'x{}y.fold', nx 'fold'], query label x\\{:03}y: {}", c as char, d, what), sub.clone()).sig("oracle", oracle).sig("part", "octets");
+            let Some(rb) = reply else {
+                res.violations.push(mk("no-reply", "no reply".into()));
+                continue;
+            };
+            let Ok((m, _)) = rd::decode(&rb) else {
+                res.violations.push(mk("malformed", "malformed reply".into()));
+                continue;
+            };
+            let want_rc = if want_fwd { 0 } else { 3 };
+            if m.rcode() != want_rc {
+                res.violations.push(mk("rcode", format!("rcode {}, expected {} (octet {:#04x} {} the suffix octet {:#04x} under ASCII letter-case folding)", m.rcode(), want_rc, d, if want_fwd { "equals" } else { "differs from" }, c)));
+            }
+            if (got_up > 0) != want_fwd {
+                res.violations.push(mk("upstream-choice", format!("the forward route's upstream received {got_up} queries, expected {}", want_fwd as u8)));
+            }
+        }
+        let ps = rig.stop();
+        if let Some(p) = ps.first() {
+            res.violations.push(Violation::new("panic", format!("service task panicked while routing: {} at {}", p.msg, crate::common::panics::short_loc(&p.loc)), case.clone()).sig("loc", crate::common::panics::short_loc(&p.loc)));
+        }
+    }
+    let mut st = serde_json::Map::new();
+    st.insert("queries".into(), json!(n));
+    st.insert("suffix_octets_rejected_by_loader".into(), json!(rejected));
+    st.insert("class:octets".into(), json!(1));
+    res.stats = Value::Object(st);
+    res
 }
 
 fn labels_lower(s: &str) -> Vec<String> {
@@ -117,6 +222,9 @@ fn expected_route(routes: &[Value], name: &str) -> Option<usize> {
 }
 
 pub fn run_case(case: &Value) -> CaseResult {
+    if case["kind"].as_str() == Some("octets") {
+        return run_octets(case);
+    }
     let routes = case["routes"].as_array().cloned().unwrap_or_default();
     // upstream k serves the k-th forward route (in written order)
     let mut yaml = String::from("---\ndns-listeners: {LISTENERS}\ndns-routes:\n");
@@ -274,7 +382,7 @@ pub fn run(tier: &str, replay: Option<Value>) -> ! {
     let classes: Vec<String> = agg.stats_sum.keys().filter_map(|k| k.strip_prefix("class:").map(|s| s.to_string())).collect();
     rep.cov("evaluations", q);
     rep.cov("distinct_nontrivial", agg.executions);
-    rep.cov("rule", "route tables: every subset of <=4 of the 6 suffixes {'',com,example.com,a.example.com,org,Example.COM} (thorough: 7, + b.a.example.com) partitioned into <=3 routes, every forward/forge-nxdomain typing, every route order and every suffix order inside each route; each table is served by a live DnsService with one scripted upstream per forward route and asked 10 names x RD{1,0} over TCP. evaluations = queries; distinct_nontrivial = distinct written tables");
+    rep.cov("rule", "route tables: every subset of <=4 of the 6 suffixes {'',com,example.com,a.example.com,org,Example.COM} (thorough: 7, + b.a.example.com) partitioned into <=3 routes, every forward/forge-nxdomain typing, every route order and every suffix order inside each route; each table is served by a live DnsService with one scripted upstream per forward route and asked 10 names x RD{1,0} over TCP; octet folding: for every printable octet c the table {forward 'x<c>y.fold', forge-nxdomain 'fold'} asked for x<d>y.fold with d in {c, c^0x20, c+-1, upper, lower, c|0x80} (thorough: all 256 octets), forwarded iff d equals c up to the case of an ASCII letter. evaluations = queries; distinct_nontrivial = distinct written tables");
     rep.cov("exhaustive", true);
     rep.cov("tables", agg.executions);
     rep.cov("outcome_classes", json!(classes));
